@@ -217,7 +217,9 @@ fn s1_run(s: &S1, seq: &[usize], l: &mut Local) -> Option<(usize, String, String
 
 // =============================== scenario 2: Blocker, add_filter + optimize ====================
 
-const S2_INITIAL: &[&str] = &["||b1.com^", "@@||b1.com^$script"];
+// (the two `/adv/track*...` rules are fusable regex rules that share a bucket: optimize() fuses
+// them *after* queries may already have compiled the regex of one of them)
+const S2_INITIAL: &[&str] = &["||b1.com^", "@@||b1.com^$script", "/adv/track*pixel", "/adv/track*beacon"];
 const S2_ADD: &[&str] = &[
     "||b2.com^$important",
     "||r.com^$redirect=a",
@@ -237,6 +239,8 @@ const S2_URLS: &[(&str, &str)] = &[
     ("https://p.com/x?q=1", "xhr"),
     ("https://pi.com/x?q=1", "xhr"),
     ("https://z.com/foo1bar", "script"),
+    ("https://z.com/adv/track1pixel", "script"),
+    ("https://z.com/adv/track1beacon", "script"),
 ];
 
 #[derive(Clone, Copy, Debug, PartialEq)]
